@@ -44,6 +44,7 @@ def run(ctx):
     model = ctx.get_model() if ctx.build_ok else None
     violations, disagreements = [], []
     counts = dict(model_points=0, sweep_points=0)
+    model_inputs = set()
     # --- model vs real scale()
     if model is not None:
         for code, name in CODES.items():
@@ -60,13 +61,13 @@ def run(ctx):
                 real = sc.ThermocoupleScaling(code, direction, 0xFFFFFFFF).scale(arr)
                 if direction == 0:
                     # the code divides by 1000.0 in binary64 before evaluating: mirror that one rounding
-                    sent = [fr(float(x) / 1000.0 * 1000.0) if False else fr(x) for x in xs]
                     toks = ["%d/%d" % ((Fraction(float(x) / 1000.0) * 1000).numerator, (Fraction(float(x) / 1000.0) * 1000).denominator) for x in xs]
                 else:
                     toks = [fr(x) for x in xs]
                 r = model.ask("tc %d %d %s" % (code, direction, " ".join(toks)))
                 for x, got, m in zip(xs, real, r["results"]):
                     counts["model_points"] += 1
+                    model_inputs.add((code, direction, x))
                     if m is None:
                         disagreements.append(dict(what="type %s dir %d x=%r: model selects no piece" % (name, direction, x)))
                         continue
@@ -88,10 +89,18 @@ def run(ctx):
                        stdout=subprocess.PIPE, stderr=subprocess.PIPE, text=True, timeout=3000)
     out = p.stdout.strip().split("\n")
     summary = out[-1] if out else ""
+    import re
     for line in out:
-        mm = __import__("re").search(r"(\d+) value comparisons", line)
+        mm = re.search(r"evaluations compared: (\d+)", line)
         if mm:
             counts["sweep_points"] = int(mm.group(1))
+        mm = re.search(r"boundary/neighbour evaluations: (\d+), of which (\d+) tell", line)
+        if mm:
+            counts["boundary_points"] = int(mm.group(1))
+            counts["boundary_points_distinguishing_pieces"] = int(mm.group(2))
+        mm = re.search(r"round trips within the per-piece tolerance: (\d+)", line)
+        if mm:
+            counts["round_trips"] = int(mm.group(1))
     if p.returncode == 1:
         info = None
         for line in out[::-1]:
@@ -104,10 +113,14 @@ def run(ctx):
     elif p.returncode != 0:
         raise RuntimeError("tc_sweep.py infrastructure failure (%d): %s %s" % (p.returncode, p.stdout[-500:], p.stderr[-500:]))
     return dict(violations=violations, disagreements=disagreements[:20], notes=[summary[:300]],
-                coverage=dict(evaluations=counts["model_points"] + max(counts["sweep_points"], n * 16), distinct_nontrivial=counts["model_points"] + n * 16,
+                coverage=dict(evaluations=counts["model_points"] + counts["sweep_points"],
+                              # measured: inputs compared through the model + boundary/neighbour evaluations that tell adjacent pieces apart
+                              distinct_nontrivial=len(model_inputs) + counts.get("boundary_points_distinguishing_pieces", 0),
                               rule="model correspondence: %d random binary64 inputs per type and direction over the NIST range, compared with exact rational evaluation of the "
                                    "regenerated tables; sweep: %d points per type and direction over the range widened by 5%% plus every piece boundary and its float "
-                                   "neighbours (+-1, +-2 ulp), both APIs (celsius_to_mv/mv_to_celsius and ThermocoupleScaling.scale), all eight types" % (ctx.n(150, 3000), n),
+                                   "neighbours (+-1, +-2 ulp), both APIs (celsius_to_mv/mv_to_celsius and ThermocoupleScaling.scale), all eight types; distinct_nontrivial = "
+                                   "distinct (type, direction, input) triples compared through the model + boundary evaluations whose two adjacent pieces differ by more "
+                                   "than twice the tolerance (i.e. that would expose a wrong piece selection)" % (ctx.n(150, 3000), n),
                               samples=[dict(type="k", direction=1, x=25.0)], counts=counts, sweep_output=out[-6:]))
 
 
